@@ -28,7 +28,7 @@ RULE = ("scenario = establishment outcome x 0..4 messages with per-request answe
         "silence / other status / exception) and timing (tie, hops) x server-pushed notifications/requests x chunking of the event bytes x "
         "optional stream death x exit path at a generated instant; non-trivial = establishment was not the plain immediate announcement, or a "
         "request was answered over the event stream, or the exit was not the plain normal path, or the stream was chunked inside an event")
-PROBES = ["falsy_request_id", "event_then_post_failed", "establish_failed_status", "establish_no_announcement", "announce_at_timeout_edge", "event_before_202", "event_after_202", "silence_timeout",
+PROBES = ["session_id_supplied_by_caller", "falsy_request_id", "event_then_post_failed", "establish_failed_status", "establish_no_announcement", "announce_at_timeout_edge", "event_before_202", "event_after_202", "silence_timeout",
           "post_failed", "chunk_inside_event", "chunk_inside_utf8", "server_push_delivered", "exit_cancel_scope", "exit_task_cancel",
           "exit_exception", "cancel_while_waiting_for_event", "stream_died", "int_request_id", "push_right_after_response_event"]
 TIERS = {"quick": {"runs": 12000, "wall": 45.0}, "thorough": {"runs": 800000, "wall": 560.0}}
@@ -104,7 +104,7 @@ def generate(rng: random.Random, tier: str) -> dict:
             if m["mode"] in ("event_then_202", "event_then_exc", "event_then_status"):
                 m["event_at"] = min(m["event_at"], m["post_latency"])
     return {"v": 1, "timeout": timeout, "est": est, "msgs": msgs, "pushes": pushes, "chunk": chunk, "death": death, "exit": ex,
-            "keepalive": True}
+            "keepalive": True, "session_id": rng.choice([None, None, None, "resume-abc123"])}
 
 
 def systematic(tier: str):
@@ -133,6 +133,8 @@ def systematic(tier: str):
 
 
 def simplify(scn):
+    if scn.get("session_id"):
+        c = copy.deepcopy(scn); c["session_id"] = None; yield c
     if scn["exit"].get("early") is not None:
         c = copy.deepcopy(scn); del c["exit"]["early"]; yield c
     if scn["chunk"]:
@@ -408,7 +410,9 @@ def execute(scn: dict) -> dict:
 
         async def body():
             try:
-                params = SSEParameters(url=BASE, timeout=timeout)
+                params = SSEParameters(url=BASE, timeout=timeout, session_id=scn.get("session_id"))
+                if scn.get("session_id"):
+                    sim.probe("session_id_supplied_by_caller")
                 st["t_enter_start"] = sim.now()
                 if ex["path"] == "cancel_scope":
                     with anyio.CancelScope() as scope:
